@@ -1,6 +1,7 @@
 (** Pinned statements of the C13 property theorems: compiled on every check, so a theorem
     cannot be weakened silently. *)
 From V Require Import Base.Util C20.Model C13.Model C13.Spec C13.Proofs C13.Properties.
+From Coq Require Import Permutation.
 
 Check (C13_imports_terminate :
   forall st root_path root, resolve_imports st root_path root <> inl OutOfFuel).
@@ -80,3 +81,76 @@ Print Assumptions C13_dup_fragment_masks_refuted.
 Print Assumptions C13_exact_full_refuted.
 Print Assumptions C13_error_iff_full_refuted.
 Print Assumptions C13_no_panic_full_refuted.
+Check (C13_ext_char :
+  forall doc,
+  match resolve_extensions doc with
+  | inr f =>
+      fdefs f = item_defs doc
+      /\ NoDup (map ipath (fimports f))
+      /\ (forall i, In i (fimports f) ->
+            has_line (ipath i) doc = true
+            /\ merge_targets (Specific []) (group (ipath i) doc) = Some (itargets i))
+      /\ (forall p, has_line p doc = true -> exists i, In i (fimports f) /\ ipath i = p)
+  | inl _ => exists p, has_line p doc = true /\ merge_targets (Specific []) (group p doc) = None
+  end).
+Check (C13_ext_requests :
+  forall doc f i,
+  resolve_extensions doc = inr f -> In i (fimports f) ->
+  match itargets i with
+  | Wildcard => group (ipath i) doc = [TWild]
+  | Specific ids => no_wild (group (ipath i) doc) = true /\ ids = target_ids (group (ipath i) doc)
+  end).
+Check (C13_ext_error_iff :
+  forall doc,
+  (exists e, resolve_extensions doc = inl e) <->
+  (exists p, has_line p doc = true /\ no_wild (group p doc) = false /\ group p doc <> [TWild])).
+Print Assumptions C13_ext_char.
+Print Assumptions C13_ext_requests.
+Print Assumptions C13_ext_error_iff.
+Check (C13_import_lines_irrelevant :
+  forall st st' root_path root root' ks ds,
+  store_equiv st st' -> file_equiv root root' ->
+  exact_guard_b st root_path root ks = true ->
+  names_guard_b st ks (all_lines st root_path root ks) = true ->
+  resolve_imports st root_path root = inr ds ->
+  exists ds', resolve_imports st' root_path root' = inr ds' /\ (forall d, In d ds <-> In d ds') /\ NoDup ds').
+Check (C13_ext_perm :
+  forall doc doc' f,
+  Permutation doc doc' -> item_defs doc = item_defs doc' ->
+  resolve_extensions doc = inr f ->
+  exists f', resolve_extensions doc' = inr f' /\ file_equiv f f').
+Print Assumptions C13_import_lines_irrelevant.
+Print Assumptions C13_ext_perm.
+Check (C13_reach_closed :
+  forall st root_path root, closed_b st root_path root (reach_b st root_path root) = true).
+Check (C13_imports_exact_reach :
+  forall st root_path root ds,
+  guard_exact st root_path root = true ->
+  resolve_imports st root_path root = inr ds ->
+  (forall d, In d ds <-> Closure st root_path root d) /\ NoDup ds).
+Check (C13_error_iff_reach :
+  forall st root_path root,
+  agree_b st (all_lines st root_path root (reach_b st root_path root)) = true ->
+  guard_names st root_path root = true ->
+  (BadLine st root_path (fimports root) <->
+   exists e, resolve_imports st root_path root = inl e /\ positioned e = true)).
+Check (C13_no_panic_reach :
+  forall st root_path root,
+  guard_names st root_path root = true ->
+  resolve_imports st root_path root <> inl PanicMissingTarget).
+Print Assumptions C13_reach_closed.
+Print Assumptions C13_imports_exact_reach.
+Print Assumptions C13_error_iff_reach.
+Print Assumptions C13_no_panic_reach.
+Check (C13_closure_raw :
+  forall ds st, StoreOf ds st ->
+  forall root_path root_items root, resolve_extensions root_items = inr root ->
+  forall d, RawClosure ds root_path root_items d <-> Closure st root_path root d).
+Check (C13_imports_exact_raw :
+  forall ds st root_path root_items root out,
+  StoreOf ds st -> resolve_extensions root_items = inr root ->
+  guard_exact st root_path root = true ->
+  resolve_imports st root_path root = inr out ->
+  (forall d, In d out <-> RawClosure ds root_path root_items d) /\ NoDup out).
+Print Assumptions C13_closure_raw.
+Print Assumptions C13_imports_exact_raw.
